@@ -655,6 +655,34 @@ func init() {
 		e.s("low=").int(int64(i)).boolean(" neg", neg)
 	})
 
+	reg("Internals", []string{"NewVertex", "VertexPoolList.EnsureCapacity", "VertexPoolList.Add", "NewLocalMinima", "LocalMinima.Equals", "NewIntersectNode", "NewOutPt2", "NewHorzSegment", "NewHorzJoin", "SwapFrontBackSides"}, func(c *Ctx, op *Op, e *Enc, out *Outcome) {
+		// exported building blocks of the sweep; nothing useful can be done
+		// with them from outside, but they are API and must be as re-entrant
+		// and repeatable as the rest
+		pt := clip.Point64{X: op.i(0), Y: op.i(1)}
+		v := clip.NewVertex(pt, clip.None, nil)
+		var vpl clip.VertexPoolList
+		vpl.EnsureCapacity(int(op.i(2)&15) + 1)
+		v2 := vpl.Add(clip.Point64{X: op.i(2), Y: op.i(3)}, clip.LocalMax, v)
+		lm1 := clip.NewLocalMinima(v, clip.Subject, false)
+		lm2 := clip.NewLocalMinima(v2, clip.Clip, true)
+		e.boolean("eq", lm1.Equals(lm1)).boolean("ne", lm1.Equals(lm2)).s("n=").int(int64(len(vpl))).s(" cap=").int(int64(cap(vpl)))
+		in := clip.NewIntersectNode(pt, nil, nil)
+		o2 := clip.NewOutPt2(pt)
+		hs := clip.NewHorzSegment(&clip.OutPt{})
+		hj := clip.NewHorzJoin(&clip.OutPt{}, nil)
+		e.boolean(" made", in != nil && o2 != nil && hs != nil && hj != nil)
+		func() {
+			defer func() {
+				if r := recover(); r != nil {
+					e.s(" swap-panics")
+				}
+			}()
+			clip.SwapFrontBackSides(&clip.OutRec{})
+			e.s(" swap-ok")
+		}()
+	})
+
 	regObjectOps()
 }
 
